@@ -23,7 +23,7 @@ impl Group for E2eGroup {
             l("e2e refused socks"), l("e2e reuse 6"), l("e2e reuse2 1500"), l("e2e reaper"),
             l("e2e badpreamble bitflip"), l("e2e badpreamble random"), l("e2e badpreamble truncated"), l("e2e badpreamble good"),
             l("e2e badpreamble good 1"), l("e2e badpreamble trimmed 1"), l("e2e badpreamble good 3"), l("e2e badpreamble trimmed 5"), l("e2e badpreamble lower 10"), l("e2e badpreamble straypause 0 3300"), l("e2e badpreamble goodpause 0 3300"), l("e2e badpreamble padpause 2 1200"),
-            l("e2e pushe2e"), l("e2e preamble 77"), l("e2e finburst 5000 3 0"), l("e2e finburst 8192 4 0"), l("e2e finburst 3000 9 30"), l("e2e finburst 20000 2 0"), l("e2e finburst 65535 1 0"), l("e2e finburst 9000 1 0"), l("e2e finburst 1 1 0"), l("e2e udp 1 100 1472 9000"), l("e2e udp6 1 100 1472 65507 3"), l("e2e udp 65507 1 30000 2"), l("e2e udplate 17 1200 9000"), l("e2e early socks 300"),
+            l("e2e pushe2e"), l("e2e preamble 77"), l("e2e finburst 5000 3 0"), l("e2e finburst 8192 4 0"), l("e2e finburst 3000 9 30"), l("e2e finburst 20000 2 0"), l("e2e finburst 65535 1 0"), l("e2e finburst 9000 1 0"), l("e2e finburst 1 1 0"), l("e2e udp 1 100 1472 9000"), l("e2e udp6 1 100 1472 65507 3"), l("e2e udp 65507 1 30000 2"), l("e2e udplate 17 1200 9000"), l("e2e early socks 300"), l("e2e early socks_domain 300"), l("e2e early socks_domain 40"),
             l("e2e slow up direct 6000000"), l("e2e slow down socks 6000000"), l("e2e slow up socks 3000000"), l("e2e slow down http 3000000"), l("e2e slow up http 3000000"),
             l("e2e blackhole all"), l("e2e noname"), l("e2e certreload BxCtAmB"), l("e2e certreload xBEC"), l("e2e certreload DADxB"),
         ];
@@ -38,7 +38,7 @@ impl Group for E2eGroup {
             5 => format!("e2e reuse {}", rng.range(2, 12)),
             6 => if rng.chance(1, 4) { format!("e2e badpreamble {} {} {}", rng.pick(&["straypause", "goodpause", "padpause"]), rng.below(crate::g_auth::PASSWORDS.len() as u64), rng.pick(&[300u64, 1100, 2200, 3300, 5500, 11000])) } else { format!("e2e badpreamble {} {}", rng.pick(&["bitflip", "random", "truncated", "good", "good", "trimmed", "lower"]), rng.below(crate::g_auth::PASSWORDS.len() as u64)) },
             7 => format!("e2e {} {}", rng.pick(&["udp", "udp", "udp6", "udplate"]), (0..rng.range(1, 5)).map(|_| rng.pick(&[1usize, 2, 100, 1472, 9000, 30000, 65507]).to_string()).collect::<Vec<_>>().join(" ")),
-            8 => format!("e2e early socks {}", rng.pick(&[1usize, 300, 20000])),
+            8 => format!("e2e early {} {}", rng.pick(&["socks", "socks_domain"]), rng.pick(&[1usize, 40, 300, 20000])),
             9 => format!("e2e slow {} {} {}", rng.pick(&["up", "down"]), rng.pick(&["socks", "http", "direct"]), rng.pick(&[1_000_000usize, 3_000_000, 6_000_000, 12_000_000])),
             10 => if rng.chance(1, 2) { format!("e2e blackhole {}", rng.pick(&["socks", "http", "direct"])) } else { format!("e2e certreload {}", (0..rng.range(1, 8)).map(|_| *rng.pick(&["A", "B", "C", "D", "x", "t", "m", "E"])).collect::<String>()) },
             _ => "e2e refused socks".to_string(),
@@ -56,7 +56,7 @@ impl Group for E2eGroup {
                 "finburst" => format!("e2e finburst {} {} {}", rng.pick(&[1usize, 100, 4096, 5000, 8192, 8193, 20000, 65535]), rng.range(1, 12), rng.pick(&[0u64, 0, 1, 30])),
                 "badpreamble" => if rng.chance(1, 4) { format!("e2e badpreamble {} {} {}", rng.pick(&["straypause", "goodpause", "padpause"]), rng.below(crate::g_auth::PASSWORDS.len() as u64), rng.pick(&[300u64, 1100, 2200, 3300, 5500, 11000])) } else { format!("e2e badpreamble {} {}", rng.pick(&["bitflip", "random", "truncated", "good", "good", "trimmed", "lower"]), rng.below(crate::g_auth::PASSWORDS.len() as u64)) },
                 "udp" => format!("e2e {} {}", rng.pick(&["udp", "udp", "udp6", "udplate"]), (0..rng.range(1, 5)).map(|_| rng.pick(&[1usize, 2, 100, 1472, 9000, 30000, 65507]).to_string()).collect::<Vec<_>>().join(" ")),
-                "early" => format!("e2e early socks {}", rng.pick(&[1usize, 300, 20000])),
+                "early" => format!("e2e early {} {}", rng.pick(&["socks", "socks_domain"]), rng.pick(&[1usize, 40, 300, 20000])),
                 "refused" => "e2e refused socks".to_string(),
                 "slow" => format!("e2e slow {} {} {}", rng.pick(&["up", "down"]), rng.pick(&["socks", "http", "direct"]), rng.pick(&[1_000_000usize, 3_000_000, 6_000_000, 12_000_000])),
                 "blackhole" => format!("e2e blackhole {}", rng.pick(&["socks", "http", "direct"])),
@@ -130,7 +130,8 @@ async fn scenario(t: &[String]) -> Res {
         ["e2e", "udp", sizes @ ..] => udp(&sizes.iter().filter_map(|x| x.parse().ok()).collect::<Vec<usize>>(), false).await,
         ["e2e", "udplate", sizes @ ..] => udplate(&sizes.iter().filter_map(|x| x.parse().ok()).collect::<Vec<usize>>()).await,
         ["e2e", "udp6", sizes @ ..] => udp(&sizes.iter().filter_map(|x| x.parse().ok()).collect::<Vec<usize>>(), true).await,
-        ["e2e", "early", "socks", n] => early(n.parse().map_err(|_| "n")?).await,
+        ["e2e", "early", "socks", n] => early(n.parse().map_err(|_| "n")?, false).await,
+        ["e2e", "early", "socks_domain", n] => early(n.parse().map_err(|_| "n")?, true).await,
         _ => Err("unknown scenario".into()),
     }
 }
@@ -929,7 +930,7 @@ async fn udplate(sizes: &[usize]) -> Res {
     Ok((format!("ok={okc}/{}", sizes.len()), fails))
 }
 
-async fn early(n: usize) -> Res {
+async fn early(n: usize, domain: bool) -> Res {
     // the application pipelines its first bytes right behind the CONNECT request (before the reply)
     let w = World::start(None, None, pool_default(), true).await?;
     let target = Target::start("127.0.0.1", Mode::Sink).await;
@@ -938,7 +939,8 @@ async fn early(n: usize) -> Res {
     s.write_all(&[5, 1, 0]).await.map_err(|e| e.to_string())?;
     let mut r = [0u8; 2];
     s.read_exact(&mut r).await.map_err(|e| e.to_string())?;
-    let mut req = vec![5, 1, 0, 1, 127, 0, 0, 1];
+    // (domain: the request names the target as `localhost`, a name of 9 bytes - far below the 255 a parser must allow for)
+    let mut req = if domain { let mut r = vec![5u8, 1, 0, 3, 9]; r.extend_from_slice(b"localhost"); r } else { vec![5, 1, 0, 1, 127, 0, 0, 1] };
     req.extend_from_slice(&target.addr.port().to_be_bytes());
     let data = pattern(n, 3);
     req.extend_from_slice(&data);
